@@ -157,6 +157,13 @@ pub struct BlkFileDesc {
     /// zero-padded digits in the file name (Bitcoin Core uses 5)
     pub width: usize,
     pub segs: Vec<Seg>,
+    /// the entry in the data directory is a symbolic link (absolute target, same file name) to the real
+    /// file kept in a sibling directory — e.g. old blk files moved to a bigger disk
+    #[serde(default, skip_serializing_if = "is_false")]
+    pub symlink: bool,
+}
+fn is_false(b: &bool) -> bool {
+    !*b
 }
 
 #[derive(Clone, Serialize, Deserialize, PartialEq, Eq, Debug, Hash, Default)]
@@ -210,6 +217,13 @@ pub struct IndexOpts {
     /// number of tx field: if false write 0 (value is ignored by the program)
     #[serde(default)]
     pub undo_pos_base: u64,
+    /// extra status bits OR-ed into every active-chain record (BLOCK_OPT_WITNESS = 128, the reserved /
+    /// formerly ASSUMED_VALID bit = 256); the validity level and HAVE_DATA|HAVE_UNDO stay as they are
+    #[serde(default, skip_serializing_if = "is_zero_u64")]
+    pub active_extra_status: u64,
+}
+fn is_zero_u64(x: &u64) -> bool {
+    *x == 0
 }
 
 #[derive(Clone, Serialize, Deserialize, PartialEq, Eq, Debug, Hash)]
@@ -218,6 +232,9 @@ pub struct PointFail {
     pub errno: i32,
     #[serde(default, skip_serializing_if = "Option::is_none")]
     pub after: Option<u64>,
+    /// transient: only this one call fails (failw only); the next attempt would succeed
+    #[serde(default, skip_serializing_if = "is_false")]
+    pub once: bool,
 }
 
 #[derive(Clone, Serialize, Deserialize, PartialEq, Eq, Debug, Hash, Default)]
@@ -256,6 +273,12 @@ pub struct Plan {
     /// failure of the j-th rename: (ordinal, errno)
     #[serde(default, skip_serializing_if = "Vec::is_empty")]
     pub failr: Vec<(u64, i32)>,
+    /// the source of the j-th rename is deleted just before the rename (by "someone else")
+    #[serde(default, skip_serializing_if = "Option::is_none")]
+    pub vanishr: Option<u64>,
+    /// simulated clock for the progress reporting: every reading advances time by this many ms
+    #[serde(default, skip_serializing_if = "Option::is_none")]
+    pub clock_step_ms: Option<u64>,
 }
 
 impl Plan {
@@ -299,10 +322,17 @@ impl Plan {
             s += &format!("delay {} {} {}\n", m, seed, unit);
         }
         for f in &self.failw {
-            match f.after {
-                Some(k) => s += &format!("failw {} {} after {}\n", f.at, f.errno, k),
-                None => s += &format!("failw {} {}\n", f.at, f.errno),
+            match (f.after, f.once) {
+                (_, true) => s += &format!("failw {} {} once\n", f.at, f.errno),
+                (Some(k), _) => s += &format!("failw {} {} after {}\n", f.at, f.errno, k),
+                (None, _) => s += &format!("failw {} {}\n", f.at, f.errno),
             }
+        }
+        if let Some(j) = self.vanishr {
+            s += &format!("vanishr {}\n", j);
+        }
+        if let Some(ms) = self.clock_step_ms {
+            s += &format!("clock {}\n", ms);
         }
         if let Some((k, a)) = self.crashw {
             match a {
@@ -320,7 +350,7 @@ impl Plan {
     }
     /// does this plan contain a fault that must make the run fail / die?
     pub fn has_failing(&self) -> bool {
-        !self.fails.is_empty() || !self.limits.is_empty() || self.crash.is_some() || self.fdmax.is_some() || !self.failw.is_empty() || self.crashw.is_some() || self.crashr.is_some() || !self.failr.is_empty()
+        !self.fails.is_empty() || !self.limits.is_empty() || self.crash.is_some() || self.fdmax.is_some() || !self.failw.is_empty() || self.crashw.is_some() || self.crashr.is_some() || !self.failr.is_empty() || self.vanishr.is_some()
     }
 }
 
@@ -350,6 +380,16 @@ pub struct RunSpec {
     /// stored-state faults applied to the data directory for this run only
     #[serde(default, skip_serializing_if = "Vec::is_empty")]
     pub disk_faults: Vec<DiskFault>,
+    /// number of -v flags (0 = Info, 1 = Debug, 2 = Trace)
+    #[serde(default, skip_serializing_if = "is_zero_u8")]
+    pub verbosity: u8,
+    /// run the binary built with the plain release settings (no overflow checks, no debug assertions)
+    /// instead of the checked build
+    #[serde(default, skip_serializing_if = "is_false")]
+    pub plain_build: bool,
+    /// stdout/stderr of the program are a pseudo-terminal (via script(1)) instead of a file
+    #[serde(default, skip_serializing_if = "is_false")]
+    pub tty: bool,
 }
 fn yes() -> bool {
     true
@@ -368,6 +408,9 @@ impl RunSpec {
             fresh_dump: true,
             fresh_data: true,
             disk_faults: vec![],
+            verbosity: 0,
+            plain_build: false,
+            tty: false,
         }
     }
 }
